@@ -218,6 +218,70 @@ def extra_verdicts(genfn, nq, nt):
     return run
 
 
+def extra_fuzz(nq, nt):
+    """C16 support: structure-aware mutation of every item of the test-suite / documentation plus generator output,
+    through both entry points; panics, non-determinism and output that is not a sequence of items are violations"""
+    import glob
+    import subprocess
+
+    def run(prop, tier, seed, violation, known, known_hit, notes):
+        n = nq if tier == 'quick' else nt
+        os.makedirs(f'{vlib.WORK}/fuzz', exist_ok=True)
+        corpus = f'{vlib.WORK}/fuzz/corpus.txt'
+        files = sorted(glob.glob('/repo/derive-ex-tests/tests/*.rs')) + ['/repo/doc/derive_ex.md', '/repo/README.md']
+        r = subprocess.run([vlib.XCHECK, 'corpus'] + files, capture_output=True, text=True)
+        lines = r.stdout.splitlines()
+        # generator output as additional seeds
+        for fam in ('wild', 'impl', 'strip'):
+            g = subprocess.run([vlib.DRV, 'gen', fam, str(seed), '0', '150'], capture_output=True, text=True)
+            args = ''
+            for line in g.stdout.splitlines():
+                if line.startswith('ARGS'):
+                    args = line[4:].strip()
+                elif line.startswith('ENTRY derive'):
+                    args = None
+                elif line.startswith('ITEM ') and args is not None:
+                    lines.append(args + '\t' + line[5:])
+        open(corpus, 'w').write('\n'.join(lines) + '\n')
+        nproc = vlib.NPROC
+        per = max(1, n // nproc)
+        procs = []
+        for i in range(nproc):
+            out = f'{vlib.WORK}/fuzz/{prop}.{i}.jsonl'
+            procs.append((out, subprocess.Popen([vlib.XCHECK, 'fuzz', corpus, str(seed * 1000 + i), str(per), out])))
+        tot = dict(seeds=len(lines), tried=0, valid_inputs=0, expanded_ok=0, answered_with_error=0, problems=0, kinds={})
+        nrep = 0
+        for out, p in procs:
+            p.wait()
+            if p.returncode != 0:
+                violation('fuzz-crash', dict(what='the fuzzer process died (abort inside the expander?)', rc=p.returncode), no_input=True)
+                continue
+            for line in open(out):
+                d = json.loads(line)
+                if d.get('summary'):
+                    for k in ('tried', 'valid_inputs', 'expanded_ok', 'answered_with_error', 'problems'):
+                        tot[k] += d[k]
+                    for k, v in d['kinds'].items():
+                        tot['kinds'][k] = tot['kinds'].get(k, 0) + v
+                else:
+                    key = None
+                    if d['kind'] == 'parse' and re.search(r'\.\s*\$', d['item']):
+                        key = 'key-expression-with-dollar-as-member-name'
+                    if key and key in known:
+                        if not any(k.startswith(key) for k in known_hit):
+                            known_hit.append(f'{key} {known[key]}')
+                        continue
+                    nrep += 1
+                    if nrep <= 5:
+                        violation(f'fuzz-{nrep}', dict(
+                            what={'panic': 'the expander panicked', 'nondet': 'two expansions of the same input differ',
+                                  'parse': 'the expansion is neither a sequence of well-formed items nor a compile_error!',
+                                  'empty-message': 'compile_error! without a message'}.get(d['kind'], d['kind']),
+                            property=prop, **d))
+        return dict(fuzz=tot)
+    return run
+
+
 def extras(*fs):
     def run(prop, tier, seed, violation, known, known_hit, notes):
         out = {}
@@ -405,6 +469,7 @@ PROPS.update({
         l1=[('wild', 5000, 200000), ('strip', 2000, 50000), ('impl', 2000, 50000), ('cmpWild', 2000, 50000)],
         labels=r'.',
         kinds=('panic', 'nondet', 'parse', 'roundtrip'),
+        extra=extra_fuzz(160000, 8000000),
         level_text='partial: totality and determinism are proved of the Lean model (total functions, accepted by the termination checker) and transferred to the implementation only through the L1 runs (catch_unwind around every expansion, every case expanded twice and compared, output re-parsed as items) and the mutation fuzzer; a Lean model cannot exhibit a Rust panic on inputs outside its input language',
     ),
     'C18': dict(
